@@ -1867,7 +1867,10 @@ def emit_block(unit, loc, dlines, tmpl_where):
         raise Unsupported('%s: //@block needs name and sig' % tmpl_where)
     blk_renames = {}
     try:
-        ma = _find_anchor(body, bmask, a_txt, 0)
+        if a_txt == '^':
+            ma = _Span(1, 1)      # just after the brace that opens the function body
+        else:
+            ma = _find_anchor(body, bmask, a_txt, 0)
     except AnchorLost:
         # renamed locals: the anchor with its local-variable-like identifiers as wildcards
         ma, mp_ = _find_anchor_fuzzy(body, bmask, a_txt, 0)
@@ -1914,15 +1917,6 @@ def emit_block(unit, loc, dlines, tmpl_where):
             raise Unsupported('%s: `{}` needs a start anchor that ends with an opening brace' % tmpl_where)
         cb_ = match_brace(body, bmask, ma.end() - 1)
 
-        class _Span(object):
-            def __init__(self, a, b):
-                self._a, self._b = a, b
-
-            def start(self):
-                return self._a
-
-            def end(self):
-                return self._b
         mb = _Span(cb_, cb_)
         ma = _Span(ma.end(), ma.end())
         blk = body[ma.start():cb_]
@@ -1958,7 +1952,19 @@ def emit_block(unit, loc, dlines, tmpl_where):
     bm = code_mask(blk)
     code_only = ''.join(c if bm[k] else ' ' for k, c in enumerate(blk))
     if re.search(r'\.\s*await\b', code_only):
-        raise Unsupported('%s: block contains .await' % name)
+        # R8 (general form): an awaited expression the contract does not name stands for an arbitrary result of the
+        # future's output type: `E.await` -> `E.vx_await()`; only the shim types of the prelude have such a method
+        # (anything else leaves the subset at the verifier's front end)
+        pieces = []
+        last = 0
+        for m_ in re.finditer(r'\.\s*await\b', blk):
+            if bm[m_.start()]:
+                pieces.append(blk[last:m_.start()])
+                pieces.append('.vx_await()' + '\n' * blk[m_.start():m_.end()].count('\n'))
+                last = m_.end()
+        pieces.append(blk[last:])
+        blk = ''.join(pieces)
+        unit.rule_log.append({'rule': 'R8', 'before': '<expr>.await (not named by the contract)', 'after': '<expr>.vx_await(): arbitrary value of the output type', 'where': '%s block %s' % (rel, name)})
     line0 = line_of(src, it.body_start + ma.start())
     text = 'fn %s%s { %s\n%s }' % (name, sig, blk, fall)
     unit.rule_log.append({'rule': 'R9', 'before': 'statements `%s` .. `%s` of %s' % (a_txt[:40], b_txt[:40], ' :: '.join(path)),
